@@ -56,7 +56,42 @@ pub mod sys {
                         SigSet::empty(),
                     ))
                 }
+                Signal::SIGSEGV | Signal::SIGBUS => {
+                    // Real signal, real handler -- wrapped: if the handler of the code under test
+                    // returns without redirecting the faulting context (no coroutine to blame),
+                    // the fault would repeat forever; report it as a crash instead of hanging.
+                    if let SigHandler::SigAction(f) = sigaction.handler() {
+                        INNER_TRAP.store(f as usize, std::sync::atomic::Ordering::SeqCst);
+                        let wrapped = SigAction::new(
+                            SigHandler::SigAction(trap_wrapper),
+                            sigaction.flags() | SaFlags::SA_SIGINFO,
+                            sigaction.mask(),
+                        );
+                        nix_real::sys::signal::sigaction(signal, &wrapped)
+                    } else {
+                        nix_real::sys::signal::sigaction(signal, sigaction)
+                    }
+                }
                 _ => nix_real::sys::signal::sigaction(signal, sigaction),
+            }
+        }
+
+        static INNER_TRAP: std::sync::atomic::AtomicUsize = std::sync::atomic::AtomicUsize::new(0);
+
+        extern "C" fn trap_wrapper(sig: libc::c_int, info: *mut libc::siginfo_t, ctx: *mut libc::c_void) {
+            unsafe {
+                let uc = ctx.cast::<libc::ucontext_t>();
+                let pc_before = (*uc).uc_mcontext.gregs[libc::REG_RIP as usize];
+                let inner = INNER_TRAP.load(std::sync::atomic::Ordering::SeqCst);
+                if inner != 0 {
+                    let f: extern "C" fn(libc::c_int, *mut libc::siginfo_t, *mut libc::c_void) = std::mem::transmute(inner);
+                    f(sig, info, ctx);
+                }
+                let pc_after = (*uc).uc_mcontext.gregs[libc::REG_RIP as usize];
+                if pc_before == pc_after {
+                    let addr = (*info).si_addr() as usize;
+                    sim::fatal_signal(sig, pc_before as usize, addr);
+                }
             }
         }
     }
